@@ -1,7 +1,7 @@
 use crate::{InputTrait, Parser, ParserErrorTrait};
 
-/// A parser that maps the error of the decorated parser
-/// using the given mapper.
+/// A parser that replaces the fatal error of the decorated parser
+/// with the given error. Soft errors are returned as-is.
 pub struct MapFatalErrParser<P, E> {
     parser: P,
     err: E,
@@ -25,7 +25,8 @@ where
     fn parse(&mut self, input: &mut I) -> Result<Self::Output, Self::Error> {
         match self.parser.parse(input) {
             Ok(value) => Ok(value),
-            Err(_) => Err(self.err.clone()),
+            Err(err) if err.is_fatal() => Err(self.err.clone()),
+            Err(err) => Err(err),
         }
     }
 
